@@ -54,6 +54,10 @@ type c18Scenario struct {
 	DownFail    int     `json:"downstream_fail_at"`
 	EngineOff   bool    `json:"engine_off,omitempty"`
 	DetectOnly  bool    `json:"detection_only,omitempty"`
+	// ModeByCtl: the configured engine is On and a phase-1 rule switches this
+	// transaction to the mode above by ctl:ruleEngine (the writer is wrapped and
+	// the configured Reject actions stay in place)
+	ModeByCtl bool `json:"mode_by_ctl,omitempty"`
 }
 
 const c18Tok = "EVILTOK"
@@ -65,6 +69,11 @@ func (sc *c18Scenario) text() string {
 		mode = "Off"
 	} else if sc.DetectOnly {
 		mode = "DetectionOnly"
+	}
+	ctlLine := ""
+	if sc.ModeByCtl && mode != "On" {
+		ctlLine = fmt.Sprintf("SecAction \"id:9,phase:1,pass,nolog,ctl:ruleEngine=%s\"\n", mode)
+		mode = "On"
 	}
 	onoff := func(b bool) string {
 		if b {
@@ -82,6 +91,7 @@ func (sc *c18Scenario) text() string {
 	fmt.Fprintf(&sb, "SecRequestBodyLimit %d\nSecRequestBodyInMemoryLimit %d\nSecRequestBodyLimitAction %s\nSecResponseBodyLimit %d\nSecResponseBodyLimitAction %s\n",
 		sc.ReqLimit, sc.ReqMem, act(sc.ReqReject), sc.RespLimit, act(sc.RespReject))
 	sb.WriteString("SecAuditEngine On\nSecAuditLogType verifrec\nSecAuditLog /simfs/a.log\nSecAuditLogParts ABZ\nSecAuditLogFormat JSON\n")
+	sb.WriteString(ctlLine)
 	st := ""
 	if sc.DenyStatus != 0 {
 		st = fmt.Sprintf(",status:%d", sc.DenyStatus)
@@ -115,6 +125,10 @@ func c18Gen(t *verifrt.Tape) *c18Scenario {
 		sc.EngineOff = true
 	case 1:
 		sc.DetectOnly = true
+	case 2:
+		sc.EngineOff, sc.ModeByCtl = true, true
+	case 3, 4:
+		sc.DetectOnly, sc.ModeByCtl = true, true
 	}
 	hasTok := t.Draw(2) == 0
 	sc.URI = "/app/" + pick(t, []string{"a", "b", "index"})
@@ -446,7 +460,7 @@ func c18Run(w *verifrt.World, tier Tier) *RunResult {
 		rec = recWriterOf(tx)
 		tx.Close()
 	}
-	if !sc.EngineOff && rec != nil && len(rec.Records) != 1 {
+	if (!sc.EngineOff || sc.ModeByCtl) && rec != nil && len(rec.Records) != 1 {
 		res.fail("C18", "logging-count", fmt.Sprintf("records%d", min(len(rec.Records), 2)), "the middleware produced %d audit records for one request (ProcessLogging must run exactly once)%s", len(rec.Records), ctx())
 	}
 	if left := diffFiles(filesBefore, disk.Files()); len(left) > 0 {
@@ -534,6 +548,9 @@ func c18Run(w *verifrt.World, tier Tier) *RunResult {
 	}
 	res.count(fmt.Sprintf("expected_block_phase_%d", block), 1)
 	res.count("mode_"+mode, 1)
+	if sc.ModeByCtl {
+		res.count("mode_by_ctl", 1)
+	}
 	res.Nontrivial = obs.Invoked || block > 0
 	if len(sc.Body) > sc.ReqMem && sc.ReqAccess && mode != "Off" {
 		res.count("request_body_spilled", 1)
@@ -613,6 +630,6 @@ func init() {
 		Real:      []string{"http.WrapHandler, processRequest, rwInterceptor, transaction, BodyBuffer incl. spill"},
 		Stub:      []string{"client request stream", "handler (scripted)", "downstream http.ResponseWriter (net/http contract stub)", "file system", "audit writer (recording plugin)"},
 		Unchecked: []string{"status mapping of drop / redirect", "flush timing", "hijacked connections", "everything but no-panic / no-foreign-bytes / no-temp-files under stream faults"},
-		MustHit:   []string{"expected_block_phase_0", "expected_block_phase_1", "expected_block_phase_2", "expected_block_phase_3", "expected_block_phase_4", "request_body_spilled", "fault_runs", "mode_DetectionOnly", "mode_Off"},
+		MustHit:   []string{"mode_by_ctl", "expected_block_phase_0", "expected_block_phase_1", "expected_block_phase_2", "expected_block_phase_3", "expected_block_phase_4", "request_body_spilled", "fault_runs", "mode_DetectionOnly", "mode_Off"},
 	})
 }
